@@ -427,7 +427,7 @@ def unlockEarly (s : St) (c n amt : Nat) : Option (St × Out) := do
             baseSupply := s.baseSupply + (amt - pen),
             mintEarly := s.mintEarly + (amt - pen),
             pendingPenalty := s.pendingPenalty + pen,
-            queue := updO s.queue c (s.queue c ++ [⟨s.epoch + s.unbond, n, amt, amt - pen⟩]) }.setEnergy c e,
+            queue := updO s.queue c (s.queue c ++ [UEntry.mk (s.epoch + s.unbond) n amt (amt - pen)]) }.setEnergy c e,
         ⟨pen, amt - pen, 0⟩)
 
 /-- `reduceLockPeriod(new_lock_period)` paying `amt` of nonce `n`.
@@ -562,7 +562,7 @@ def lockFunds (s : St) (c recv : Nat) (ps : List (Nat × Nat)) : Option (St × O
   req (cooldownOk s (s.sendLast c) = true)
   let (s1, e) ← deductPays s TRANSFER c (s.view c) ps
   req (s.paused = false)         -- `setUserEnergyAfterLockedTokenTransfer`
-  pure ({ s1 with xfers := s1.xfers ++ [⟨recv, c, s.epoch, ps⟩],
+  pure ({ s1 with xfers := s1.xfers ++ [Xfer.mk recv c s.epoch ps],
                   sendLast := updO s1.sendLast c (optEpoch s.epoch) }.setEnergy c e, {})
 
 /-- `withdraw(sender)` by the receiver `c` -/
